@@ -17,6 +17,6 @@ for d in sorted([x for x in os.listdir(root) if os.path.isdir(os.path.join(root,
     if m.get("status", "").startswith("obsolete"):
         by = "— (" + m["status"][:60] + "…)"
     else:
-        by = "; ".join("%s %s%s" % (c, "**yes**" if rc == "1" else ("no" if rc == "0" else "exit " + rc), " (" + s[0] + ")" if s else "") for c, rc, s in res.get(d, [])) or "not run"
+        by = "; ".join("%s %s%s" % (c, "**yes**" if rc == "1" else ("no" if rc == "0" else "exit " + rc), " (" + s[0].replace("|", " / ") + ")" if s else "") for c, rc, s in res.get(d, [])) or "not run"
     cut = lambda s, n: (s[:n] + "…") if len(s) > n else s
     print("| %s | %s | %s | %s |" % (d, cut(m.get("summary", "").replace("|", "/"), 260), cut(m.get("needs", "").replace("|", "/"), 200), by))
